@@ -135,7 +135,14 @@ UNSUPPORTED = {
 }
 
 
-def mem(m):
+# documented keywords of the memory option (elftosb / blhost user's guides) and the memory ids they stand for
+MEM_NAMES = {0: "internal", 1: "qspi", 8: "semcnor", 9: "flexspinor", 256: "semcnand", 257: "spinand", 272: "spieeprom", 273: "i2ceeprom", 288: "sdcard", 289: "mmccard"}
+
+
+def mem(m, r=None):
+    """Memory option of a statement: nothing for the internal memory, `@<id>` or the documented keyword otherwise (seeded choice)."""
+    if r is not None and m in MEM_NAMES and r.random() < (0.5 if m else 0.15):
+        return MEM_NAMES[m] + " "
     return f"@{m} " if m else ""
 
 
@@ -151,12 +158,12 @@ def stmt_text(st, files, src, r):
     s = st["s"]
     if s == "load_blob":
         blob = " ".join(f"{b:02x}" for b in st["blob"])
-        return f"load {mem(st['mem'])}{{{{{blob}}}}} > {show(st['addr'], r=r)};"
+        return f"load {mem(st['mem'], r)}{{{{{blob}}}}} > {show(st['addr'], r=r)};"
     if s == "load_file":
         if st["via"] == "literal":
-            return f'load "{files(st["data"])}" > {show(st["addr"], r=r)};'
+            return f'load {mem(st["mem"], r)}"{files(st["data"])}" > {show(st["addr"], r=r)};'
         name = src[id(st)][0]
-        return f"load {name} > {show(st['addr'], r=r)};"
+        return f"load {mem(st['mem'], r)}{name} > {show(st['addr'], r=r)};"
     if s == "fill":
         return f"load {st['pat']:#x}.{st['sz']} > {show(st['addr'], r=r)};"
     if s == "fill_range":
@@ -165,18 +172,18 @@ def stmt_text(st, files, src, r):
         lo = show(st["lo"], r=r)
         if not st["mem"] and (lo[:1].isalpha() or lo[:1] == "_"):
             lo = "(" + lo + ")"  # an identifier right after `erase` is read as a memory option by the documented grammar
-        return f"erase {mem(st['mem'])}{lo}..{show(st['hi'], r=r)};"
+        return f"erase {mem(st['mem'], r)}{lo}..{show(st['hi'], r=r)};"
     if s == "erase_addr":
         a = show(st["addr"], r=r)
         if not st["mem"] and (a[:1].isalpha() or a[:1] == "_"):
             a = "(" + a + ")"
-        return f"erase {mem(st['mem'])}{a};"
+        return f"erase {mem(st['mem'], r)}{a};"
     if s == "erase_all":
-        return f"erase {mem(st['mem'])}all;"
+        return f"erase {mem(st['mem'], r)}all;"
     if s == "erase_unsecure_all":
         return "erase unsecure all;"
     if s == "enable":
-        return f"enable {mem(st['mem'])}{show(st['addr'], r=r)};"
+        return f"enable {mem(st['mem'], r)}{show(st['addr'], r=r)};"
     if s in ("call", "jump"):
         arg = {"none": "", "empty": " ()", "expr": f" ({show(st['arg'], r=r)})"}[st["argform"]]
         return f"{s} {show(st['addr'], r=r)}{arg};"
@@ -192,7 +199,7 @@ def stmt_text(st, files, src, r):
     if s == "version_check":
         return f"version_check {'nsec' if st['nsec'] else 'sec'} {show(st['ver'], r=r)};"
     if s in ("keystore_to_nv", "keystore_from_nv"):
-        return f"{s} {mem(st['mem'])}{show(st['addr'], r=r)};"
+        return f"{s} {mem(st['mem'])}{show(st['addr'], r=r)};"      # numeric memory option only (the documented form of the key-store statements)
     raise Machinery(f"no renderer for {s}")
 
 
@@ -439,14 +446,20 @@ def run(tier):
     # ---- canary
     good = {"id": "good", "ev": [{"ev": "Expr", "e": {"k": "bin", "op": "*", "l": {"k": "lit", "v": 3}, "r": {"k": "lit", "v": 5}}, "got": {"k": "int", "v": 15}}]}
     bad = {"id": "bad", "ev": [{"ev": "Expr", "e": {"k": "bin", "op": "*", "l": {"k": "lit", "v": 3}, "r": {"k": "lit", "v": 5}}, "got": {"k": "int", "v": -2}}]}
-    pg = json.loads(json.dumps(next(t for t in ptraces if t["result"] == "ok" and t["ev"][-1]["ev"] == "End" and not _has_known(t))))
-    pg["id"] = "prog-good"
-    pb = json.loads(json.dumps(pg))
-    pb["id"] = "prog-bad"
-    st = next(e for e in pb["ev"] if e["ev"] == "Stmt")
-    st["obs"]["a"] += 4
-    rej, _ = tlc.tv("C19", "BdTrace", [_strip(x) for x in (good, bad, pg, pb)])
-    if not ({"bad", "prog-bad"} <= set(rej)) or "good" in rej:
+    # (good / bad are fixed observations that never passed through SPSDK; the program canary corrupts a real trace and only demands that the corrupted
+    #  copy is rejected - whether the real trace itself is accepted is the business of the main run)
+    cand = next((t for t in ptraces if t["result"] == "ok" and t["ev"][-1]["ev"] == "End" and not _has_known(t)), None)
+    batch = [good, bad]
+    if cand is not None:
+        pg = json.loads(json.dumps(cand))
+        pg["id"] = "prog-good"
+        pb = json.loads(json.dumps(pg))
+        pb["id"] = "prog-bad"
+        st = next(e for e in pb["ev"] if e["ev"] == "Stmt")
+        st["obs"]["a"] += 4
+        batch += [pg, pb]
+    rej, _ = tlc.tv("C19", "BdTrace", [_strip(x) for x in batch])
+    if "bad" not in rej or "good" in rej or (cand is not None and "prog-bad" not in rej):
         raise Machinery(f"canary failed: rejected {sorted(rej)}")
     v.extra["canary"] = f"corrupted expression value and corrupted command address rejected; rejected set {sorted(rej)}"
 
@@ -472,7 +485,9 @@ def run(tier):
                      "walked by the independent boot-ROM executor, the decoded sections / commands compared by TLC with the language semantics (SbLoadTrace)")
     v.assumptions += ["operands stay below 2^31 (TLC integers); negative operands of / % << >> & | ^ and non-boolean operands of && || are outside the asserted domain",
                       "the renderer (minimal parentheses by documented C precedence) is trusted",
-                      "fill patterns are generated only where all readings agree (.b < 0x100, .h >= 0x100, .w >= 0x1000000)"]
+                      "fill patterns are generated only where all readings agree (.b < 0x100, .h >= 0x100, .w >= 0x1000000)",
+                      "memory options are written as @<id> or as the documented keyword (internal, qspi, semcnor, flexspinor, spinand, sdcard ...); the key-store "
+                      "statements get the numeric form only (their documentation shows no other)"]
     return v.finish()
 
 
